@@ -6,6 +6,7 @@ import (
 	"fmt"
 	"os"
 	"runtime"
+	"runtime/debug"
 	"sort"
 	"strings"
 	"sync/atomic"
@@ -110,6 +111,7 @@ func endActivity()              { actStart.Store(0) }
 
 func TestSim(t *testing.T) {
 	gT = t
+	debug.SetGCPercent(400)
 	if *fReplay != "" {
 		runReplay(t)
 		return
@@ -121,6 +123,10 @@ func TestSim(t *testing.T) {
 	if prop == nil {
 		fmt.Printf("HARNESS-ERROR unknown property %s\n", *fProp)
 		os.Exit(2)
+	}
+	if *fMode == "rule" {
+		fmt.Println("RULE " + prop.Rule)
+		return
 	}
 	start := time.Now()
 	env := &Env{Tier: *fTier, VerifSeed: *fSeed, Shard: *fShard, NShards: *fNShards, St: newStats(), Thorough: *fTier == "thorough"}
